@@ -42,6 +42,10 @@ Qed.
 Lemma eqv_ext : ring_eq_ext padd pmul pneg eqv.
 Proof. constructor; [exact eqv_add | exact eqv_mul | exact eqv_neg]. Qed.
 Add Ring Ering : eqv_ring (setoid eqv_equiv eqv_ext).
+(* the same structure under the model's name of the carrier (poly := list T), for goals typed that way *)
+Lemma eqv_ring_poly : ring_theory (R := @poly T) [] [I_] padd pmul psub pneg eqv.
+Proof. exact eqv_ring. Qed.
+Add Ring EringP : eqv_ring_poly (setoid eqv_equiv eqv_ext).
 
 (* ---- facts about the building blocks, as eqv *)
 Lemma setdegree_eqv : forall P, eqv (setdegree D P) P.
@@ -111,7 +115,7 @@ Proof.
   - cbn [egcd_loop]. destruct (isZero D G). split; assumption.
     pose proof (divmod_identity kthr sthr F G Hk) as Hd.
     destruct (divmod D kthr sthr F G) as [Q R1] eqn:Edm. cbn [fst snd] in Hd.
-    apply IH. unfold bez, assign, pmulK. split.
+    apply IH. unfold bez, assign, pmulK. generalize (lc1 D R1). intros r1. split.
     + rewrite setdegree_eqv, setdegree_eqv, setdegree_eqv. exact HG.
     + assert (HR : eqv R1 (psub F (pmul G Q))).
       { assert (HF' : eqv F (padd (pmul G Q) R1)) by (constructor; exact Hd). rewrite HF'. ring. }
